@@ -299,11 +299,18 @@ def read_sim_traces(prefix_dir):
             continue
         txt = open(os.path.join(prefix_dir, fn), encoding='utf-8').read()
         beh = []
-        # blocks: "\* <Action line ...>\nSTATE_n ==\n/\ a = ..\n/\ b = ..\n"
-        for m in re.finditer(r'(?:\\\* <([A-Za-z_0-9]+)[^>]*>\s*\n)?STATE_(\d+) ==\s*\n((?:/\\ .*\n?(?:(?!/\\ |\\\*|STATE_|\n).*\n?)*)+)', txt):
-            act = m.group(1) or 'Init'
-            st = _state([m.group(3)], None)
-            beh.append((act, st))
+        parts = re.split(r'^STATE_\d+ ==\s*$', txt, flags=re.M)
+        for k in range(1, len(parts)):
+            head = parts[k - 1]
+            m = None
+            for m in re.finditer(r'^\\\* <([A-Za-z_0-9]+)', head, flags=re.M):
+                pass
+            act = m.group(1) if m else 'Init'
+            body = parts[k]
+            cut = re.search(r'^(\\\*|=====)', body, flags=re.M)
+            if cut:
+                body = body[:cut.start()]
+            beh.append((act, _state([body], None)))
         if beh:
             out.append(beh)
     return out
